@@ -95,6 +95,8 @@ def _dispatch_polling(fl, ah, pending, spec, form=False):
             poll = sut.get(sid)
             sut.settle()
         n_before = len(sut.events)
+        # (ASGI gateway: the body arrives in 1, 2 or 3 http.request events depending on the number of packets)
+        sut.body_chunks = 1 + len(spec) % 3
         if form:
             # the form-encoded variant of the same body, as JSONP-polling browsers POST it (spaces as '+')
             import urllib.parse
